@@ -169,6 +169,11 @@ struct ParserTokenError : public Error {
     Error(location, (boost::format("%s, got %s") % message % tokenEnumStr(token)).str()) {}
 };
 
+struct NestingDepthError : public Error {
+  NestingDepthError(Location location, unsigned limit) :
+    Error(location, (boost::format("constructs nested more than %d levels deep") % limit).str()) {}
+};
+
 struct SemanticTokenError : public Error {
   SemanticTokenError(Location location, std::string message, Token token) :
     Error(location, (boost::format("%s, got %s") % message % tokenEnumStr(token)).str()) {}
@@ -1266,6 +1271,23 @@ public:
 class Parser {
   Lexer &lexer;
 
+  /// The parser and every later pass recurse once per level of nesting, so the
+  /// nesting depth is bounded to report deeply nested input as an error rather
+  /// than exhaust the stack.
+  static constexpr unsigned MAX_NESTING_DEPTH = 1000;
+  unsigned nestingDepth = 0;
+
+  struct NestingGuard {
+    unsigned &depth;
+    NestingGuard(Parser &parser) : depth(parser.nestingDepth) {
+      if (depth >= MAX_NESTING_DEPTH) {
+        throw NestingDepthError(parser.lexer.getLocation(), MAX_NESTING_DEPTH);
+      }
+      depth++;
+    }
+    ~NestingGuard() { depth--; }
+  };
+
   /// Expect the given last token, otherwise raise an error.
   void expect(Token token) const {
     if (token != lexer.getLastToken()) {
@@ -1298,6 +1320,7 @@ class Parser {
   ///   <binary-op> <element> <binary-op>
   ///   <element>
   std::unique_ptr<Expr> parseBinOpRHS(Token op) {
+    NestingGuard guard(*this);
     auto location = lexer.getLocation();
     auto element = parseElement();
     if (isAssociative(op) && op == lexer.getLastToken()) {
@@ -1364,6 +1387,7 @@ class Parser {
   ///   "(" ")"
   ///   "(" <expr> ")"
   std::unique_ptr<Expr> parseElement() {
+    NestingGuard guard(*this);
     auto location = lexer.getLocation();
     switch (lexer.getLastToken()) {
     case Token::IDENTIFIER: {
@@ -1555,6 +1579,7 @@ class Parser {
   ///   <identifier> "(" <expr-list> ")"
   ///   <number> "(" [ <expr-list> ")"
   std::unique_ptr<Statement> parseStatement() {
+    NestingGuard guard(*this);
     auto location = lexer.getLocation();
     switch (lexer.getLastToken()) {
     case Token::SKIP:
